@@ -653,10 +653,19 @@ func (env *SpecEnv) specEq(x, y Val) string {
 		case KIface:
 			return tEq(x.Tag, "0")
 		case KAddr:
-			if len(x.A.Path) > 0 {
-				return "false"
+			var addrNil func(a *Addr) string
+			addrNil = func(a *Addr) string {
+				if a.Alt != nil {
+					p := *a
+					p.Alt, p.AltCond = nil, ""
+					return tIte(a.AltCond, addrNil(&p), addrNil(a.Alt))
+				}
+				if len(a.Path) > 0 || a.Kind == AGlobal || a.Kind == ACell {
+					return "false"
+				}
+				return tEq(a.Base, "0")
 			}
-			return tEq(x.A.Base, "0")
+			return addrNil(x.A)
 		case KInt:
 			return tEq(x.S, "0")
 		case KFunc:
